@@ -151,7 +151,8 @@
 (hy-repr-register [hy.models.String str hy.models.Bytes bytes] (fn [x]
   (setv r (.lstrip (_base-repr x) "ub"))
   (if (is-not None (getattr x "brackets" None))
-    f"#[{x.brackets}[{x}]{x.brackets}]"
+    ; The reader drops one newline after the opening delimiter.
+    (+ "#[" x.brackets "[" (if (.startswith x "\n") "\n" "") x "]" x.brackets "]")
     (+
       (if (isinstance x bytes) "b" "")
       (if (.startswith "\"" r)
